@@ -48,7 +48,7 @@ ASSUMPTIONS = [
     'quick tier: 23-24 grid dates (both epoch seams +- one step, first/last dates, mid-epochs, and 8-9 seed-selected others: '
     'seed s takes the remaining dates with index = s mod 15); thorough: all 151 for every seed',
 ]
-REQUIRED_CLASSES = ['form:after-refused-date', 'form:number-types', 'form:reused-arrays', 'epoch:WMM2015', 'epoch:WMM2020', 'epoch:WMM2025', 'seam:2020.0', 'seam:2025.0', 'seam:last-before',
+REQUIRED_CLASSES = ['pole:height-ladder', 'form:after-refused-date', 'form:number-types', 'form:reused-arrays', 'epoch:WMM2015', 'epoch:WMM2020', 'epoch:WMM2025', 'seam:2020.0', 'seam:2025.0', 'seam:last-before',
                     'end:2030.0', 'pole:north', 'pole:south', 'near-pole', 'equator', 'lat:+-1e-9', 'lon:+-180',
                     'height:-1', 'height:850', 'form:float', 'form:int', 'form:date', 'ref:selftest']
 
@@ -319,6 +319,20 @@ def job_dense(ctx, i, lo, hi):
     ctx.cls('dense', len(P))
 
 
+def job_pole_heights(ctx, lo, hi):
+    """Both poles over a dense height ladder (every metre from 0 to 1 km, every km up to 850 km): at latitude +-90 the geocentric
+    conversion sits on the edge of the arcsin / arccos domain, where one rounding of z/r decides between a value and NaN."""
+    hs = [j / 1000.0 for j in range(0, 1001)] + [float(j) for j in range(2, 851)]
+    P = []
+    for hk in hs[lo:hi]:
+        P.append((90.0, 0.0, hk)); P.append((-90.0, 137.0, hk))
+    B = [rw.basis(*p) for p in P]
+    holder = [_new_wmm(2020.0)]
+    d = grid(75)
+    _judge(ctx, holder, 'float', 75, d, f'{d:.1f}', P, B)
+    ctx.cls('pole:height-ladder', len(P))
+
+
 def job_selftest(ctx):
     """Trusted-base self-test of the reference (does not touch ahrs/utils/wmm.py)."""
     try:
@@ -352,6 +366,8 @@ def run(ctx):
         for i in DENSE_DATES:
             for lo, hi in core.chunks(n, 4):
                 jobs.append(('job_dense', (i, lo, hi)))
+    for lo, hi in core.chunks(1001 + 849, 8):
+        jobs.append(('job_pole_heights', (lo, hi)))
     core.run_jobs(ctx, __name__, jobs)
     ctx.notes['grid_dates'] = len(idx)
     ctx.notes['grid_date_list'] = [grid(i) for i in idx]
